@@ -298,6 +298,8 @@ def _mark_walk(body, qname, what, marked):
         body = body[:m.start()] + " " * (m.end() - m.start()) + body[m.end():]
     m = re.search(r"if\s*\(\s*%s\s*->\s*head\s*<=\s*%s\s*->\s*tail\s*\)\s*\{" % (q, q), body)
     if m:
+        if body[:m.start()].strip(" \t\n;{"):
+            raise ExtractError("ev.c: %s: statement %r before the walk not recognised" % (what, body[:m.start()].strip()[:60]))
         e1 = csrc.match_brace(body, m.end() - 1)
         m2 = re.match(r"\s*else\s*\{", body[e1:])
         if not m2:
@@ -327,15 +329,34 @@ def csrc_balanced(txt):
 def extract_marks(src):
     """janet_chanat_mark_fq (fibers of a pending queue) and the item walk of janet_chanat_mark"""
     fq = csrc.func_body(src, "janet_chanat_mark_fq")
-    m = _need(r"^\{\s*JanetChannelPending\s*\*\s*(\w+)\s*=\s*fq\s*->\s*data\s*;", fq, "janet_chanat_mark_fq: view of the pending entries")
-    pend = _mark_walk(fq[m.end():], "fq", "janet_chanat_mark_fq",
+    sig = _need(r"janet_chanat_mark_fq\s*\(\s*JanetQueue\s*\*\s*(\w+)\s*\)\s*\{", src, "janet_chanat_mark_fq: parameter")
+    fqn = sig.group(1)
+    m = _need(r"^\{\s*JanetChannelPending\s*\*\s*(\w+)\s*=\s*(?:\(\s*JanetChannelPending\s*\*\s*\)\s*)?%s\s*->\s*data\s*;" % re.escape(fqn), fq,
+              "janet_chanat_mark_fq: view of the pending entries")
+    pend = _mark_walk(fq[m.end():], fqn, "janet_chanat_mark_fq",
                       r"janet_mark\s*\(\s*janet_wrap_fiber\s*\(\s*%s\s*\[\s*IDX\s*\]\s*\.\s*fiber\s*\)\s*\)" % re.escape(m.group(1)))
     mk = csrc.func_body(src, "janet_chanat_mark")
-    m = _need(r"^\{\s*\(void\)\s*s\s*;\s*JanetChannel\s*\*\s*chan\s*=\s*p\s*;\s*"
-              + _ws("janet_chanat_mark_fq(&chan->read_pending); janet_chanat_mark_fq(&chan->write_pending); "
-                    "JanetQueue *items = &chan->items; Janet *data = chan->items.data;"), mk,
-              "janet_chanat_mark: both pending queues marked, then the items ring")
-    items = _mark_walk(mk[m.end():], "items", "janet_chanat_mark", r"janet_mark\s*\(\s*data\s*\[\s*IDX\s*\]\s*\)")
+    # preamble, names free, statement order free: the channel pointer, both pending queues handed to janet_chanat_mark_fq,
+    # a view of the items ring and of its slots; then the walk
+    m = _need(r"JanetChannel\s*\*\s*(\w+)\s*=\s*(?:\(\s*JanetChannel\s*\*\s*\)\s*)?p\s*;", mk, "janet_chanat_mark: channel pointer")
+    ch = re.escape(m.group(1))
+    cands = [x.start() for x in (re.search(r"\bfor\s*\(", mk), re.search(r"\bif\s*\(", mk)) if x]
+    if not cands:
+        raise ExtractError("ev.c: janet_chanat_mark: no walk over the items ring found")
+    start = min(cands)
+    pre, walk = mk[:start], mk[start:]
+    for q in ("read_pending", "write_pending"):
+        if len(re.findall(r"janet_chanat_mark_fq\s*\(\s*&\s*%s\s*->\s*%s\s*\)\s*;" % (ch, q), mk)) != 1:
+            raise ExtractError("ev.c: janet_chanat_mark: %s is not handed to janet_chanat_mark_fq exactly once" % q)
+    mq = _need(r"JanetQueue\s*\*\s*(\w+)\s*=\s*&\s*%s\s*->\s*items\s*;" % ch, pre, "janet_chanat_mark: view of the items ring")
+    qn = mq.group(1)
+    md = _need(r"Janet\s*\*\s*(\w+)\s*=\s*(?:\(\s*Janet\s*\*\s*\)\s*)?(?:%s\s*->\s*items\s*\.|%s\s*->\s*)data\s*;" % (ch, re.escape(qn)), pre,
+               "janet_chanat_mark: view of the item slots")
+    walk = re.sub(r"janet_chanat_mark_fq\s*\([^;]*;", "", walk)     # (the fq calls may also follow the walk)
+    left = re.sub(r"janet_chanat_mark_fq\s*\([^;]*;|\(\s*void\s*\)\s*\w+\s*;", "", pre)
+    left = left.replace(m.group(0), "").replace(mq.group(0), "").replace(md.group(0), "")
+    # anything else before the first loop (a local naming a bound, ...) belongs to the walk: _mark_walk accepts or rejects it
+    items = _mark_walk(left.strip(" \t\n{") + "\n" + walk, qn, "janet_chanat_mark", r"janet_mark\s*\(\s*%s\s*\[\s*IDX\s*\]\s*\)" % re.escape(md.group(1)))
     if not re.search(r"janet_chanat_mark\s*,", src):
         raise ExtractError("ev.c: janet_chanat_mark is not the gcmark callback of janet_channel_type")
     return {"chanMarkPending": pend, "chanMarkItems": items}
